@@ -229,10 +229,13 @@ func TestC21(t *testing.T) {
 			return
 		}
 		bucket := len(sentBody) / 16384
-		if sentMsgLen > 65536 {
-			// above the handshake message size limit for non-Certificate messages: outside the statement
-			r.Count("compressed_message_over_64k_skipped", 1)
+		if sentMsgLen > 262144 {
+			// above the size limit of certificate messages (256 KiB): outside the statement
+			r.Count("compressed_message_over_256k_skipped", 1)
 			return
+		}
+		if sentMsgLen > 65536 {
+			r.Count("compressed_messages_between_64k_and_256k", 1)
 		}
 		// what does the (possibly corrupted) message really encode?  Reference: whole-stream
 		// decompression with the same third-party decoders, read until EOF.
